@@ -315,13 +315,19 @@ func (cs *State) OnStart() error {
 	}
 
 	// We may have lost some votes if the process crashed reload from consensus
-	// log to catchup.
-	if cs.doWALCatchup {
+	// log to catchup. If the blocks below cs.Height came from block sync or
+	// state sync instead (doWALCatchup is off), there is nothing to replay, but
+	// the WAL still has to be told where cs.Height starts.
+	walStep := cs.catchupReplay
+	if !cs.doWALCatchup {
+		walStep = cs.startHeightInWAL
+	}
+	{
 		repairAttempted := false
 
 	LOOP:
 		for {
-			err := cs.catchupReplay(cs.Height)
+			err := walStep(cs.Height)
 			switch {
 			case err == nil:
 				break LOOP
